@@ -146,6 +146,35 @@ func init() {
 				}
 			}
 		}
+		// the reader fails INSIDE a long line (longer than the usual 4096-byte read buffers, within the 64 KiB limit of a
+		// line), at offsets before, at and after every buffer boundary of the line; base schedules only
+		for _, ln := range []int{5000, 10000, 40000} {
+			doc := "- a\n  - " + strings.Repeat("x", ln) + "\n  - b\n- c\n"
+			for _, op := range []string{"out-text", "out-json"} {
+				start := len("- a\n  - ")
+				var offs []int
+				for o := 4096; o < ln; o += 4096 {
+					offs = append(offs, start+o-1-start, start+o-start, o, o+1, o+start)
+				}
+				offs = append(offs, 10, start+100, start+ln/2, start+ln-1, start+ln, start+ln+1)
+				seen := map[int]bool{}
+				for _, i := range offs {
+					if i <= 0 || i >= len(doc) || seen[i] {
+						continue
+					}
+					seen[i] = true
+					if tier == "quick" && ln == 40000 && len(seen)%3 != 0 {
+						continue
+					}
+					d := NewDrv(op, doc)
+					d.ReaderFailAfter = i
+					name := fmt.Sprintf("c14/longline%d/%s/reader@%d", ln, op, i)
+					// (the complete lines delivered before any of these offsets are "- a" at most: acceptable)
+					out = append(out, &Scenario{Name: name, Prop: "C14", Workers: w2, Bound: 0, Policies: pols,
+						New: func() Exec { return &c14Exec{DrvRun: d.New(), name: name} }})
+				}
+			}
+		}
 		// the LAST write of the run fails (plain and transient), explored one bound deeper: by then other workers are
 		// leaving, channels are being closed and contexts cancelled - the failure must still come back
 		for di, doc := range []string{"- a\n- c\n"} {
